@@ -448,7 +448,30 @@ class Parser:
         raise TranslateError('unsupported slice pattern')
 
     def parse_match_pat(self):
-        """patterns of `match` arms: `_`, a binding, a literal (`0`, `true`), tuples of these"""
+        """patterns of `match` arms: `_`, a binding, a literal (`0`, `true`), tuples of these, constructor patterns
+        (`Ok(p)`, `Err(p)`, `Some(p)`, `None`, `Enum::Variant(p, ..)`) and alternatives `p | q`"""
+        p = self.parse_match_pat1()
+        if self.peek()[1] == '|':
+            alts = [p]
+            while self.accept('|'):
+                alts.append(self.parse_match_pat1())
+            return ('mor', alts)
+        return p
+
+    def parse_match_pat1(self):
+        if self.peek()[1] == '..':
+            self.next()
+            return ('mrest',)
+        if self.peek()[0] == 'id' and (self.peek(1)[1] in ('(', '::') or self.peek()[1] == 'None'):
+            path = [self.next()[1]]
+            while self.accept('::'):
+                path.append(self.next()[1])
+            subs = []
+            if self.accept('('):
+                while not self.accept(')'):
+                    subs.append(self.parse_match_pat())
+                    self.accept(',')
+            return ('mctor', path, subs)
         if self.accept('('):
             ps = []
             while not self.accept(')'):
@@ -685,7 +708,10 @@ class Emitter:
         if t == 'Self':
             return self.self_ty
         if isinstance(t, str) and t in getattr(self, 'typarams', ()):
-            return getattr(self, 'typarams_ty', None) or 'slice'
+            tt = getattr(self, 'typarams_ty', None)
+            if isinstance(tt, dict):
+                return tt.get(t, 'slice')
+            return tt or 'slice'
         if isinstance(t, tuple) and t and t[0] == 'assoc':
             if t[1] not in getattr(self, 'assoc', {}):
                 raise TranslateError('associated type %s is not declared uniquely in the file' % t[1])
@@ -821,6 +847,12 @@ class Emitter:
             lo_, _ = self.expr(e[2][1], env, 'usize')
             hi_, _ = self.expr(e[2][2], env, 'usize')
             return '((%s.drop %s).take (%s - %s))' % (s_, lo_, hi_, lo_), 'slice'   # `&xs[a..b]` panics unless a ≤ b ≤ len
+        if k == 'panic':
+            # `unreachable!()` / `panic!()` in VALUE position (a match arm inside an expression): the arm's value is the default
+            # of its type; the tie theorems show such an arm is not taken on their domain (the hand models return `panic` there)
+            if exp is None:
+                raise TranslateError('panic in value position without a known type')
+            return self.default_of(exp), exp
         if k == 'uintlit':
             sx, tx = self.expr(e[1], env)
             if getattr(self, 'uint_mode', False) is not True:
@@ -889,6 +921,20 @@ class Emitter:
             return '[' + ', '.join(p[0] for p in parts) + ']', ('array', parts[0][1] if parts else 'u64', len(parts))
         raise TranslateError('unsupported expression %r' % (e[0],))
 
+    def default_of(self, t):
+        """a default term of the Lean type of `t` (used where a projection is guarded by its test)"""
+        if t in ('uint', 'slice', 'mutslice', 'uintlist') or (isinstance(t, tuple) and t and t[0] == 'array'):
+            return '[]' if not (t == 'uint' and getattr(self, 'uint_mode', False) == 'value') else '0'
+        if t == 'bool':
+            return 'false'
+        if isinstance(t, tuple) and t and t[0] == 'enum':
+            return '(' + ', '.join(['0'] + [self.default_of(x) for x in self.enum_slots(t)]) + ')'
+        if isinstance(t, tuple) and t and t[0] == 'tuple':
+            return '(' + ', '.join(self.default_of(x) for x in t[1]) + ')'
+        if isinstance(t, tuple) and t and t[0] == 'option':
+            return 'none'
+        return '0'
+
     def match_ret(self, e, env, result):
         """a `match` in return position with `panic!` arms: every other arm returns its value, a panic arm panics"""
         return self.match_expr(e, env, self.inner_rt, ret=(result,))
@@ -916,6 +962,57 @@ class Emitter:
                 if v < 0:
                     v += 2 ** self.w(ty)           # two's complement at the scrutinee's width
                 conds.append('(%s == %d)' % (term, v))
+                return
+            if pat[0] == 'mctor':
+                name = pat[1][-1]
+                if isinstance(ty, tuple) and ty[0] == 'result' and name in ('Ok', 'Err') and len(pat[2]) == 1:
+                    if name == 'Ok':
+                        conds.append('(Rs.isOk %s)' % term)
+                        walk(pat[2][0], '(Rs.okD %s %s)' % (self.default_of(ty[1]), term), ty[1], conds, binds)
+                    else:
+                        conds.append('(!(Rs.isOk %s))' % term)
+                        walk(pat[2][0], '(Rs.errD %s %s)' % (self.default_of(ty[2]), term), ty[2], conds, binds)
+                    return
+                if isinstance(ty, tuple) and ty[0] == 'option' and name in ('Some', 'None'):
+                    if name == 'None':
+                        conds.append('((%s).isNone)' % term)
+                    else:
+                        conds.append('((%s).isSome)' % term)
+                        walk(pat[2][0], '((%s).getD %s)' % (term, self.default_of(ty[1])), ty[1], conds, binds)
+                    return
+                if isinstance(ty, tuple) and ty[0] == 'enum' and len(pat[1]) == 2 and (pat[1][0] == ty[1] or pat[1][0] == 'Self'):
+                    variants = self.enums[ty[1]]
+                    idx = [v for v, _ in variants].index(name)
+                    conds.append('((%s).1 == %d)' % (term, idx))
+                    slots = self.enum_slots(ty)
+                    subs = pat[2]
+                    if subs and subs[-1] == ('mrest',):
+                        subs = subs[:-1]
+                    for i, q in enumerate(subs):
+                        proj = '.2' * (i + 1) + ('.1' if i < len(slots) - 1 else '')
+                        walk(q, '(%s)%s' % (term, proj), slots[i], conds, binds)
+                    return
+                raise TranslateError('constructor pattern %s against %r' % ('::'.join(pat[1]), ty))
+            if pat[0] == 'mor':
+                # alternatives: the arm is taken when one matches; bindings come from the first alternative that does
+                allb = []
+                cs = []
+                for alt in pat[1]:
+                    c2, b2 = [], []
+                    walk(alt, term, ty, c2, b2)
+                    cs.append('(' + (' && '.join(c2) if c2 else 'true') + ')')
+                    allb.append(b2)
+                conds.append('(' + ' || '.join(cs) + ')')
+                names = [n for n, _, _ in allb[0]]
+                if any([n for n, _, _ in b] != names for b in allb):
+                    raise TranslateError('alternatives bind different names')
+                for k_, n in enumerate(names):
+                    t_ = allb[-1][k_][1]
+                    for j in range(len(allb) - 2, -1, -1):
+                        t_ = '(if %s then %s else %s)' % (cs[j], allb[j][k_][1], t_)
+                    binds.append((n, t_, allb[0][k_][2]))
+                return
+            if pat[0] == 'mrest':
                 return
             if pat[0] == 'mtuple':
                 if not (isinstance(ty, tuple) and ty[0] == 'tuple' and len(ty[1]) == len(pat[1])):
@@ -1267,6 +1364,8 @@ class Emitter:
             raise TranslateError('Uint method %s has no value-level meaning here' % name)
         if isinstance(tr, str) and tr in WIDTH:
             w = WIDTH[tr]
+            if name == 'is_negative' and tr in SIGNED and not args:
+                return '(decide (2 ^ %d ≤ %s))' % (w - 1, sr), 'bool'     # the sign bit of the two's-complement pattern
             if name in ('wrapping_add', 'wrapping_sub', 'wrapping_mul'):
                 sb, _ = self.expr(args[0], env, tr)
                 f = {'wrapping_add': 'wadd', 'wrapping_sub': 'wsub', 'wrapping_mul': 'wmul'}[name]
@@ -2618,6 +2717,20 @@ end Rs
 '''
 
 
+PRELUDE_RES = '''/-! `Result` helpers used by generated `match`es on `Ok` / `Err` patterns (hand-written, fixed). -/
+namespace Rs
+def isOk {ε α : Type} : Except ε α → Bool
+  | .ok _ => true
+  | .error _ => false
+def okD {ε α : Type} (d : α) : Except ε α → α
+  | .ok a => a
+  | .error _ => d
+def errD {ε α : Type} (d : ε) : Except ε α → ε
+  | .ok _ => d
+  | .error e => e
+end Rs
+'''
+
 PRELUDE_BYTES = '''import Ruint.Gen.Prelude
 /-! Byte-level word reads used by the generated byte-slice decoders (hand-written, fixed). -/
 namespace Rs
@@ -3035,6 +3148,31 @@ def fold_items(repo):
                  after="Product<&'a Self> for Uint<BITS, LIMBS>")]
 
 
+def conv2_items(repo):
+    """the rest of src/from.rs: the signed `TryFrom` impls (`impl_from_signed_int!` instantiated per type) and the functions that
+    match on a conversion result — `from` / `saturating_from` / `wrapping_from` as functions of the `Result` that the generic
+    `Self::uint_try_from(value)` yields, `wrapping_to` / `saturating_to` as functions of the `Result` of `self.uint_try_to()`
+    (declared rewrites: the trait-dispatched call is replaced by its result as a parameter)"""
+    f = repo + '/src/from.rs'
+    u = {'self_ty': 'uint', 'uint': True, 'group': 'conv2', 'externs': UINT_EXTERNS, 'file': f}
+    to_err = ('result', 'uint', ('enum', 'ToUintError', ['uint']))
+    from_err = ('result', 'u64', ('enum', 'FromUintError', ['u64']))
+    out = []
+    for fn in ('from', 'saturating_from', 'wrapping_from'):
+        out.append(dict(u, fn=fn, lean='uint_%s_res' % fn, key='Uint::%s_res' % fn, after='pub fn %s<T>(value: T) -> Self' % fn,
+                        rewrite=[(r'Self::uint_try_from\(value\)', 'value')], typarams_ty={'T': to_err}))
+    for fn in ('wrapping_to', 'saturating_to'):
+        out.append(dict(u, fn=fn, lean='uint_%s_res' % fn, key='Uint::%s_res' % fn,
+                        rewrite=[(r'self\.uint_try_to\(\)', 'res'), (r'fn %s<T>\(&self\) -> T' % fn, 'fn %s<T, R>(res: R) -> T' % fn)],
+                        typarams_ty={'T': 'u64', 'R': from_err}))
+    for t, ut in (('i8', 'u8'), ('i16', 'u16'), ('i32', 'u32'), ('i64', 'u64'), ('isize', 'usize'), ('i128', 'u128')):
+        # `Self::try_from(value as $uint)`: TryFrom<u128> for u128, else (through `impl_from_unsigned_int!`: `value as u64`) TryFrom<u64>
+        out.append(dict(u, fn='try_from', lean='uint_try_from_%s' % t, key='Uint::try_from_%s' % t,
+                        after='TryFrom<$int> for Uint<BITS, LIMBS>', subst={'$int': t, '$uint': ut},
+                        call_alias={'try_from': 'Uint::try_from_u128' if ut == 'u128' else 'Uint::try_from_u64'}))
+    return out
+
+
 def radix_items(repo):
     """src/base_convert.rs: digit-sequence conversions (limb mode; errors are (variant index, fields))"""
     f = repo + '/src/base_convert.rs'
@@ -3060,6 +3198,7 @@ GROUPS = [('core', 'Words', ('Ruint.Gen.Prelude',)),
           ('bytes', 'WordsBytes', ('Ruint.Gen.WordsUintMod', 'Ruint.Gen.PreludeBytes')),
           ('conv', 'WordsConv', ('Ruint.Gen.WordsUintMod',)),
           ('fls', 'WordsFls', ('Ruint.Gen.WordsUintMod',)),
+          ('conv2', 'WordsConv2', ('Ruint.Gen.WordsConv', 'Ruint.Gen.PreludeRes')),
           ('shiftops', 'WordsShiftOps', ('Ruint.Gen.WordsUint',)),
           ('binops', 'WordsBinOps', ('Ruint.Gen.WordsUintDiv',)),
           ('bitops', 'WordsBitOps', ('Ruint.Gen.WordsUint',)),
@@ -3071,7 +3210,7 @@ GROUPS = [('core', 'Words', ('Ruint.Gen.Prelude',)),
 def translate_all(repo):
     """-> {module name: lean source}, errors"""
     fns = {}
-    files = {'Prelude': PRELUDE, 'PreludeBytes': PRELUDE_BYTES}
+    files = {'Prelude': PRELUDE, 'PreludeBytes': PRELUDE_BYTES, 'PreludeRes': PRELUDE_RES}
     errors = []
     items = default_items(repo)
     items += uint_items(repo)
@@ -3085,6 +3224,7 @@ def translate_all(repo):
     items += bytes_items(repo)
     items += conv_items(repo)
     items += fls_items(repo)
+    items += conv2_items(repo)
     items += shift_op_items(repo)
     items += bin_op_items(repo)
     items += bit_op_items(repo)
